@@ -396,6 +396,22 @@ fn min_curv_radius(p: &[Point; 4]) -> f64 {
     best
 }
 
+/// control points exactly on the chord p0 -> p3 and in order along it (p0 <= p1 <= p2 <= p3), p3 != p0:
+/// the cubic traces the chord once, monotonically (its speed may vanish at an end)
+fn straight_monotone(p: &[Point; 4]) -> bool {
+    let d = p[3] - p[0];
+    let l2 = d.hypot2();
+    if l2 == 0.0 {
+        return false;
+    }
+    let (a, b) = (p[1] - p[0], p[2] - p[0]);
+    if a.cross(d) != 0.0 || b.cross(d) != 0.0 {
+        return false;
+    }
+    let (s1, s2) = (a.dot(d) / l2, b.dot(d) / l2);
+    0.0 <= s1 && s1 <= s2 && s2 <= 1.0
+}
+
 /// source segments exactly as the stroker walks the elements (degenerate elements are skipped)
 fn source_polys(els: &[PathEl], w: f64, eps: f64) -> Vec<Poly> {
     let mut v = Vec::new();
@@ -425,9 +441,15 @@ fn source_polys(els: &[PathEl], w: f64, eps: f64) -> Vec<Poly> {
             PathEl::CurveTo(p1, p2, p3) => {
                 if p1 != last || p2 != last || p3 != last {
                     let c = [last, p1, p2, p3];
-                    let mut pts = vec![last];
-                    flatten_cubic(&c, eps, &mut pts);
-                    v.push(Poly::new(pts, false, min_curv_radius(&c) > need));
+                    if straight_monotone(&c) {
+                        // geometrically the line segment last -> p3 traversed monotonically (coincident or collinear,
+                        // ordered control points): as a point set it is a line, whatever the parametrisation
+                        v.push(Poly::new(vec![last, p3], true, true));
+                    } else {
+                        let mut pts = vec![last];
+                        flatten_cubic(&c, eps, &mut pts);
+                        v.push(Poly::new(pts, false, min_curv_radius(&c) > need));
+                    }
                 }
                 last = p3;
             }
@@ -1150,6 +1172,25 @@ fn gen_wild_cubics(r: &mut Rng) -> Vec<PathEl> {
                 let b = gp(r);
                 els.push(PathEl::LineTo(b));
                 p = b;
+            }
+            4 => {
+                // coincident control points (bit-identical): the tangent fall-backs of PathSeg::tangents are
+                // what keeps these from being dropped or stroked with a zero normal
+                // (added after seeded change C14a was missed by this check)
+                let q = gp(r);
+                let m = gp(r);
+                let (a, b) = match r.below(6) {
+                    0 => (p, p),  // P,P,P,Q: a straight line traversed as t^3
+                    1 => (q, q),  // P,Q,Q,Q
+                    2 => (p, q),  // P,P,Q,Q: the to_cubic of a line
+                    3 => (p, m),  // P,P,M,Q
+                    4 => (m, q),  // P,M,Q,Q
+                    _ => (m, m),  // P,M,M,Q
+                };
+                if q != p {
+                    els.push(PathEl::CurveTo(a, b, q));
+                    p = q;
+                }
             }
             _ => {
                 let (a, b, c) = (gp(r), gp(r), gp(r));
